@@ -1,6 +1,6 @@
 /-
 Lemmas for C18 (persistence, value level): what `arg2config` writes reads back through the INI reader (`strip`)
-and the typed getter — integers.
+and the typed getter — integers, and lists of clean account numbers.
 -/
 import OfxProofs.Lemmas.Ofxget
 
@@ -130,5 +130,254 @@ theorem pyInt_roundtrip (i : Int) : pyIntOfStr (strip (pyStrInt i)) = some i := 
         show some ((i.natAbs : Int)) = some i
         congr 1
         omega
+
+/-! ### lists -/
+
+/-- account numbers that survive `write_list` / `convert_list`: printable, no `,` `'` `\`, no blank at either end,
+    not empty -/
+def cleanChar (c : Char) : Bool :=
+  c != ',' && c != '\'' && c != '\\' && decide (32 ≤ c.toNat) && c.toNat != 127
+
+structure CleanMember (m : Str) : Prop where
+  chars : ∀ c ∈ m, cleanChar c = true
+  nonempty : m ≠ []
+  head : ∀ c rest, m = c :: rest → isSpace c = false
+  last : ∀ c pre, m = pre ++ [c] → isSpace c = false
+
+theorem cleanChar_facts (c : Char) (h : cleanChar c = true) :
+    c ≠ ',' ∧ c ≠ '\'' ∧ c ≠ '\\' ∧ 32 ≤ c.toNat ∧ c.toNat ≠ 127 := by
+  simp only [cleanChar, Bool.and_eq_true, bne_iff_ne, ne_eq, decide_eq_true_eq] at h
+  exact ⟨h.1.1.1.1, h.1.1.1.2, h.1.1.2, h.1.2, h.2⟩
+
+def quoted (m : Str) : Str := '\'' :: (m ++ ['\''])
+
+theorem pyReprStr_clean (m : Str) (h : ∀ c ∈ m, cleanChar c = true) : pyReprStr m = quoted m := by
+  have hq : m.contains '\'' = false := by
+    cases hc : m.contains '\'' with
+    | false => rfl
+    | true =>
+      have : '\'' ∈ m := by simpa using hc
+      exact absurd rfl (cleanChar_facts _ (h _ this)).2.1
+  unfold pyReprStr quoted
+  simp only [hq, Bool.false_and, Bool.false_eq_true, if_false]
+  congr 2
+  induction m with
+  | nil => rfl
+  | cons c cs ih =>
+    obtain ⟨_, h2, h3, h4, h5⟩ := cleanChar_facts c (h c (by simp))
+    have hcs : cs.contains '\'' = false := by
+      cases hc : cs.contains '\'' with
+      | false => rfl
+      | true =>
+        have : '\'' ∈ cs := by simpa using hc
+        exact absurd rfl (cleanChar_facts _ (h _ (by simp [this]))).2.1
+    have ht : c ≠ '\t' := fun e => by subst e; revert h4; decide
+    have hn : c ≠ '\n' := fun e => by subst e; revert h4; decide
+    have hr : c ≠ '\r' := fun e => by subst e; revert h4; decide
+    have h32 : ¬ c.toNat < 32 := by omega
+    simp only [List.flatMap_cons, h3, h2, ht, hn, hr, h32, h5, if_false, decide_false, Bool.false_or,
+      Bool.false_eq_true, List.cons_append, List.nil_append, beq_iff_eq]
+    rw [ih (fun x hx => h x (by simp [hx])) hcs]
+
+theorem replaceGo_single (q : Char) (s : Str) : replaceGo [q] [] 0 s = s.filter (· != q) := by
+  induction s with
+  | nil => rfl
+  | cons c cs ih =>
+    by_cases h : c = q
+    · subst h
+      simp [replaceGo, List.isPrefixOf, ih]
+    · have : (q == c) = false := by simpa using fun e : q = c => h e.symm
+      simp [replaceGo, List.isPrefixOf, this, ih, h]
+
+theorem filter_quoted (m : Str) (h : ∀ c ∈ m, cleanChar c = true) :
+    (quoted m).filter (· != '\'') = m := by
+  have : m.filter (· != '\'') = m := by
+    rw [List.filter_eq_self]
+    intro c hc
+    simpa using (cleanChar_facts c (h c hc)).2.1
+  simp [quoted, List.filter_append, this]
+
+theorem filter_join_quoted (l : List Str) (h : ∀ m ∈ l, ∀ c ∈ m, cleanChar c = true) :
+    (join ", ".toList (l.map quoted)).filter (· != '\'') = join ", ".toList l := by
+  induction l with
+  | nil => rfl
+  | cons m ms ih =>
+    cases ms with
+    | nil => simpa [join] using filter_quoted m (h m (by simp))
+    | cons m2 ms =>
+      have ih' := ih (fun x hx => h x (by simp [hx]))
+      simp only [List.map_cons, join] at ih' ⊢
+      rw [List.filter_append, List.filter_append, filter_quoted m (h m (by simp)), ih']
+      rfl
+
+theorem join_quoted_ends (l : List Str) (hne : l ≠ []) :
+    (∃ t, join ", ".toList (l.map quoted) = '\'' :: t) ∧ (∃ t, join ", ".toList (l.map quoted) = t ++ ['\'']) := by
+  induction l with
+  | nil => exact absurd rfl hne
+  | cons m ms ih =>
+    cases ms with
+    | nil =>
+      exact ⟨⟨m ++ ['\''], rfl⟩, ⟨'\'' :: m, by simp [join, quoted]⟩⟩
+    | cons m2 ms =>
+      obtain ⟨_, t, ht⟩ := ih (by simp)
+      refine ⟨⟨m ++ ['\''] ++ ", ".toList ++ join ", ".toList ((m2 :: ms).map quoted), by simp [join, quoted]⟩, ?_⟩
+      refine ⟨quoted m ++ ", ".toList ++ t, ?_⟩
+      simp only [List.map_cons, join] at ht ⊢
+      rw [ht]
+      simp [List.append_assoc]
+
+theorem stripChars_brackets (j : Str) (h1 : ∃ t, j = '\'' :: t) (h2 : ∃ t, j = t ++ ['\'']) :
+    stripChars ['[', ']'] ('[' :: (j ++ [']'])) = j := by
+  obtain ⟨t1, ht1⟩ := h1
+  obtain ⟨t2, ht2⟩ := h2
+  unfold stripChars
+  have hd : ('[' :: (j ++ [']'])).dropWhile ['[', ']'].contains = j ++ [']'] := by
+    rw [ht1]
+    simp [List.dropWhile]
+  rw [hd]
+  have hr : (j ++ [']']).reverse = ']' :: j.reverse := by simp
+  rw [hr]
+  have hj : j.reverse = '\'' :: t2.reverse := by rw [ht2]; simp
+  rw [hj]
+  have : (']' :: '\'' :: t2.reverse).dropWhile ['[', ']'].contains = '\'' :: t2.reverse := by
+    simp [List.dropWhile]
+  rw [this, ← hj]
+  simp
+
+/-- what `write_list` makes of a non-empty list of clean members: the members joined by `", "` -/
+theorem writeList_clean (l : List Str) (hne : l ≠ []) (h : ∀ m ∈ l, ∀ c ∈ m, cleanChar c = true) :
+    writeList (pyStrList l) = join ", ".toList l := by
+  have hrepr : l.map pyReprStr = l.map quoted := by
+    apply List.map_congr_left
+    intro m hm
+    exact pyReprStr_clean m (h m hm)
+  unfold writeList pyStrList
+  rw [hrepr]
+  obtain ⟨e1, e2⟩ := join_quoted_ends l hne
+  rw [stripChars_brackets _ e1 e2]
+  show replaceGo ['\''] [] 0 _ = _
+  rw [replaceGo_single, filter_join_quoted l h]
+
+
+theorem strip_of_ends (s : Str) (c : Char) (rest : Str) (hs : s = c :: rest) (hc : isSpace c = false)
+    (d : Char) (pre : Str) (hs2 : s = pre ++ [d]) (hd : isSpace d = false) : strip s = s := by
+  unfold strip rstrip
+  have h1 : lstrip s = s := by rw [hs]; exact lstrip_of_not_space c rest hc
+  rw [h1]
+  have h2 : s.reverse = d :: pre.reverse := by rw [hs2]; simp
+  rw [h2, lstrip_of_not_space d _ hd, ← h2]
+  simp
+
+theorem cleanMember_strip (m : Str) (h : CleanMember m) : strip m = m := by
+  cases hm : m with
+  | nil => exact absurd hm h.nonempty
+  | cons c rest =>
+    obtain ⟨pre, d, hpd⟩ : ∃ pre d, m = pre ++ [d] := by
+      have hne : m ≠ [] := h.nonempty
+      exact ⟨m.dropLast, m.getLast hne, (List.dropLast_concat_getLast hne).symm⟩
+    rw [← hm]
+    exact strip_of_ends m c rest hm (h.head c rest hm) d pre hpd (h.last d pre hpd)
+
+theorem strip_blank_cleanMember (m : Str) (h : CleanMember m) : strip (' ' :: m) = m := by
+  have : lstrip (' ' :: m) = lstrip m := by
+    have hsp : isSpace ' ' = true := by decide
+    simp [lstrip, hsp]
+  have hl : lstrip m = m := by
+    cases hm : m with
+    | nil => exact absurd hm h.nonempty
+    | cons c rest => exact lstrip_of_not_space c rest (h.head c rest hm)
+  have hs := cleanMember_strip m h
+  unfold strip at hs ⊢
+  rw [this, hl]
+  rw [hl] at hs
+  exact hs
+
+theorem splitOn_go_nosep (sep : Char) (cur m : Str) (h : ∀ c ∈ m, c ≠ sep) :
+    splitOn.go sep cur m = [cur.reverse ++ m] := by
+  induction m generalizing cur with
+  | nil => simp [splitOn.go]
+  | cons c cs ih =>
+    have hc : c ≠ sep := h c (by simp)
+    simp only [splitOn.go, hc, if_false]
+    rw [ih (c :: cur) (fun x hx => h x (by simp [hx]))]
+    simp
+
+theorem splitOn_go_sep (sep : Char) (cur m rest : Str) (h : ∀ c ∈ m, c ≠ sep) :
+    splitOn.go sep cur (m ++ sep :: rest) = (cur.reverse ++ m) :: splitOn.go sep [] rest := by
+  induction m generalizing cur with
+  | nil => simp [splitOn.go]
+  | cons c cs ih =>
+    have hc : c ≠ sep := h c (by simp)
+    simp only [List.cons_append, splitOn.go, hc, if_false]
+    rw [ih (c :: cur) (fun x hx => h x (by simp [hx]))]
+    simp
+
+/-- splitting the joined members at the commas gives the first member and the others with a leading blank -/
+theorem splitOn_join (l : List Str) (h : ∀ m ∈ l, ∀ c ∈ m, c ≠ ',') (m0 : Str) (h0 : ∀ c ∈ m0, c ≠ ',') (cur : Str) :
+    splitOn.go ',' cur (join ", ".toList (m0 :: l)) = (cur.reverse ++ m0) :: l.map (fun m => ' ' :: m) := by
+  induction l generalizing m0 cur with
+  | nil => simpa [join] using splitOn_go_nosep ',' cur m0 h0
+  | cons m1 ms ih =>
+    have hj : join ", ".toList (m0 :: m1 :: ms) = m0 ++ ',' :: (' ' :: join ", ".toList (m1 :: ms)) := by
+      simp [join]
+    rw [hj, splitOn_go_sep ',' cur m0 _ h0]
+    congr 1
+    -- the blank starts the next piece
+    have hsp : (' ' : Char) ≠ ',' := by decide
+    simp only [splitOn.go, hsp, if_false]
+    have := ih (fun m hm => h m (by simp [hm])) m1 (h m1 (by simp)) [' ']
+    simpa using this
+
+theorem join_last_member (ms : List Str) (m0 : Str) :
+    ∃ ml, ml ∈ m0 :: ms ∧ ∃ pre, join ", ".toList (m0 :: ms) = pre ++ ml := by
+  induction ms generalizing m0 with
+  | nil => exact ⟨m0, by simp, [], by simp [join]⟩
+  | cons m1 ms ih =>
+    obtain ⟨ml, hml, pre, hpre⟩ := ih m1
+    refine ⟨ml, List.mem_cons_of_mem _ hml, m0 ++ ", ".toList ++ pre, ?_⟩
+    simp only [join] at hpre ⊢
+    rw [hpre]
+    simp [List.append_assoc]
+
+/-- **lists read back**: a non-empty list of clean account numbers, written by `arg2config` and read by
+    `convert_list` through the INI reader, is the same list -/
+theorem list_roundtrip (l : List Str) (hne : l ≠ []) (h : ∀ m ∈ l, CleanMember m) :
+    convertList (strip (writeList (pyStrList l))) = l := by
+  have hch : ∀ m ∈ l, ∀ c ∈ m, cleanChar c = true := fun m hm => (h m hm).chars
+  have hcomma : ∀ m ∈ l, ∀ c ∈ m, c ≠ ',' := fun m hm c hc => (cleanChar_facts c (hch m hm c hc)).1
+  rw [writeList_clean l hne hch]
+  cases l with
+  | nil => exact absurd rfl hne
+  | cons m0 ms =>
+    -- the joined text begins and ends with characters of members: no edge blanks
+    have hstrip : strip (join ", ".toList (m0 :: ms)) = join ", ".toList (m0 :: ms) := by
+      have hm0 := h m0 (by simp)
+      cases hm : m0 with
+      | nil => exact absurd hm hm0.nonempty
+      | cons c rest =>
+        -- last character: of the last member
+        have hlastm := join_last_member ms m0
+        obtain ⟨ml, hml, pre, hpre⟩ := hlastm
+        have hml' := h ml hml
+        obtain ⟨pre2, d, hpd⟩ : ∃ pre2 d, ml = pre2 ++ [d] :=
+          ⟨ml.dropLast, ml.getLast hml'.nonempty, (List.dropLast_concat_getLast hml'.nonempty).symm⟩
+        have hhead : join ", ".toList (m0 :: ms) = c :: (rest ++ (join ", ".toList (m0 :: ms)).drop (m0.length)) := by
+          cases ms with
+          | nil => simp [join, hm]
+          | cons m1 ms => simp [join, hm]
+        rw [← hm]
+        exact strip_of_ends _ c _ hhead (hm0.head c rest hm) d (pre ++ pre2) (by rw [hpre, hpd]; simp)
+          (hml'.last d pre2 hpd)
+    rw [hstrip]
+    unfold convertList splitOn
+    rw [splitOn_join ms (fun m hm => hcomma m (by simp [hm])) m0 (hcomma m0 (by simp)) []]
+    simp only [List.reverse_nil, List.nil_append, List.map_cons, List.map_map]
+    rw [cleanMember_strip m0 (h m0 (by simp))]
+    congr 1
+    rw [List.map_congr_left (g := id)]
+    · simp
+    · intro m hm
+      exact strip_blank_cleanMember m (h m (by simp [hm]))
+
 
 end Ofx.Ofxget
